@@ -36,6 +36,7 @@ def opts(tier):
     o.many_segments_p = 0.01
     o.long_run_p = 0.006
     o.short_last_p = 0.05
+    o.declared_huge_p = 0.01
     o.equal_shapes_p = 0.15
 
     def scaling(rng, spec, ctype):
